@@ -126,14 +126,18 @@ func (db *DB) DeleteChannels(chs []ChannelKey) (err error) {
 		err = errors.Combine(err, errRemove)
 	}()
 
-	// Do a pass first to remove all non-index channels
+	// Do a pass first to remove all non-index channels, unary and virtual
 	for _, ch := range chs {
 		udb, uok := db.mu.dbs.unary[ch]
+		_, vok := db.mu.dbs.virtual[ch]
 
-		if !uok || udb.Channel().IsIndex {
-			if udb.Channel().IsIndex {
-				indexChannels = append(indexChannels, ch)
-			}
+		if uok && udb.Channel().IsIndex {
+			indexChannels = append(indexChannels, ch)
+			continue
+		}
+		// Channels that are neither unary nor virtual do not exist in the database, so
+		// there is nothing to remove.
+		if !uok && !vok {
 			continue
 		}
 
